@@ -414,6 +414,7 @@ static json handle(json const &cmd)
     r["rc"] = P->setup();
     return r;
   }
+  if (op == "setupout") { r["rc"] = cv->setup_output(); r["err"] = cvm::get_error(); cvm::clear_error(); return r; }
   if (op == "postrun") { r["rc"] = P->post_run(); return r; }
   if (op == "flush") { r["rc"] = P->flush_output_streams(); return r; }
   if (op == "save") {
